@@ -952,6 +952,10 @@ class Gen:
       # a nested-struct-typed field can only be connected to a signal of that very type: drive it from a block
       p = {kk: v for kk, v in p.items() if kk != "pt"}
       comb_targets.append((rank, p, list(srcs))); return
+    if k.get("p_const") and (isinstance(t, int) or not whole) and rng.random() < k["p_const"]:
+      # tie the signal to a constant (small non-zero values preferred: they coincide with live values of other nets)
+      cv = rng.choice([1, 2, 3, mask(p["w"]), rng.getrandbits(p["w"])]) & mask(p["w"])
+      cls["connects"].append([p, {"const": cv}]); return
     if rng.random() < k["p_connect"] + (0.2 if child else 0):
       # connect: need an equal-width (and, for whole structs, equal-type) source
       cands = list(srcs)
